@@ -49,11 +49,11 @@ Proof.
     try (apply rows_ok_ext; exact Hr); intros; apply defaults_ok_ext; exact Hd.
 Qed.
 
-Lemma f14_fixed_ext : forall tb v, tables_ext tb (etb v) -> f14_fixed tb = v.
+Lemma f18_fixed_ext : forall tb v, tables_ext tb (etb v) -> f18_fixed tb = v.
 Proof.
-  intros tb v [Hr _]. specialize (Hr WVecS register_callsite). unfold row in Hr.
-  replace (in_trait (wrapper_trait WVecS) register_callsite) with true in Hr by (vm_compute; reflexivity).
-  unfold f14_fixed. rewrite Hr. destruct v; vm_compute; reflexivity.
+  intros tb v [Hr _]. specialize (Hr WLayeredS on_register_dispatch). unfold row in Hr.
+  replace (in_trait (wrapper_trait WLayeredS) on_register_dispatch) with true in Hr by (vm_compute; reflexivity).
+  unfold f18_fixed. rewrite Hr. destruct v; vm_compute; reflexivity.
 Qed.
 
 (** * The semantics is extensional in the tables and in the children *)
@@ -99,6 +99,11 @@ Section Ext.
     induction 1; intros; simpl; [reflexivity|]. rewrite H. destruct (y m a) as [lg rs]. destruct rs; try reflexivity.
     rewrite IHForall2. reflexivity.
   Qed.
+  Lemma vec_interest_all_ext : forall xs ys, Forall2 ceq xs ys -> forall m a p q, vec_interest_all xs m a p q = vec_interest_all ys m a p q.
+  Proof.
+    induction 1; intros; simpl; [reflexivity|]. rewrite H. destruct (y m a) as [lg rs]. destruct rs; try reflexivity.
+    rewrite IHForall2. reflexivity.
+  Qed.
   Lemma vec_hint_ext : forall xs ys, Forall2 ceq xs ys -> forall m a acc, vec_hint xs m a acc = vec_hint ys m a acc.
   Proof.
     induction 1; intros; simpl; [reflexivity|]. rewrite H. destruct (y m a) as [lg rs]. destruct rs; try reflexivity.
@@ -115,6 +120,7 @@ Section Ext.
       + apply vec_all_ext; assumption.
       + apply vec_interest_ext; assumption.
       + destruct Hx; [reflexivity|]. apply vec_interest_ext. constructor; assumption.
+      + apply vec_interest_all_ext; assumption.
       + apply vec_hint_ext; assumption.
     - apply default_sem_ext; assumption.
   Qed.
